@@ -211,6 +211,8 @@ def run_case(case):
             want_env = m.byid[m.steps[sid]['node']].get('env')
             if want_env is not None or ra['env'].get('VF_E') is not None:
                 res.ev('env-compared')
+                if m.byid[m.steps[sid]['node']].get('oneline'):
+                    res.ev('env-compared:compound-shell-line')
                 if ra['env'].get('VF_E') != want_env:
                     res.violate(('env-differs-from-script', kind),
                                 dict(wb, step=sid, script=want_env, make=ra['env'].get('VF_E')))
